@@ -1,18 +1,28 @@
 /-
-  C18, per-type part — the serde-derived content code, for EVERY schema and EVERY JSON value.
-  Property theorems only (helper lemmas: `Lemmas/ContentSchema*.lean`; model:
-  `Model/ContentSchema.lean`; the predicates used in the statements: `Spec/ContentSchema.lean`).
+  C18, per-type part — the serde-derived content code, for every WELL-FORMED schema (`WF`) and EVERY
+  JSON value. Property theorems only (helper lemmas: `Lemmas/ContentSchema*.lean`; model:
+  `Model/ContentSchema.lean`, `Model/ContentSchemaLeaves.lean`; the predicates used in the statements:
+  `Spec/ContentSchema.lean`).
 
   Reading guide. `project s j` is what `serde_json::to_string(&serde_json::from_str::<C>(j)?)` yields
   for a content type `C` described by schema `s` (`none`: rejected). A schema lists, per struct, the
   fields with the facts the harness extracts from the running code on every run (what is written
   when the field is absent, whether `null` / an ill-typed value is read as absent, which values the
-  serialiser leaves out, which keys are serialise-only constants) — `h-c18 extract` and the
-  `c18.schema` requests carry them. `WF s` holds for the schema of every derived Rust type: field
-  names are distinct, a written-back default is readable by the field, `skip_serializing_if` is
-  only on fields that may be absent. The driver re-checks `WF`'s decidable part per request.
+  serialiser leaves out, which keys are serialise-only constants) — `h-c18 extract` writes them to
+  `Generated/C18.lean` as Lean terms.
+
+  `WF s` is a side condition ON THE MODEL's schema language, not part of the specification: field
+  spellings are distinct, a written-back default is readable by the field, `skip_serializing_if` is
+  only on fields that may be absent, scalar readers are idempotent and write `null` only for `null`,
+  every case of a tagged choice writes its tag, a struct with a catch-all has no serialise-only
+  constant. The fixpoint and duplicate-key theorems need it (non-`WF` schemas refute them: a
+  required field with a skip predicate gives `{"a":"x"} ↦ {}` and then `{} ↦` rejected). It is
+  DISCHARGED, by kernel evaluation of the total check `wfb` (`wfb_decides_wf`), for every schema
+  extracted from the running code: `Props/C18.lean`, `generated_schemas_wf`. The key-order and
+  unknown-field theorems hold for every schema, well-formed or not.
 -/
 import RumaModel.Lemmas.ContentSchemaThm2
+import RumaModel.Lemmas.ContentSchemaWF
 namespace Ruma.Props.C18Schema
 open Ruma Ruma.Canonical Ruma.ContentSchema
 
@@ -21,7 +31,9 @@ open Ruma Ruma.Canonical Ruma.ContentSchema
 /-- **Serialising the typed content and deserialising it again under the same type is a fixpoint.**
 With the typed value identified with its normal form `t = project s j` (`deser := project`,
 `ser := id` on normal forms, see the model's header): `deser s (ser s t) = some t` for every `t` in
-the image of `deser s`. Every schema, every JSON value, any nesting depth.
+the image of `deser s`. Every well-formed schema (`WF s`, a side condition on the model's schema,
+discharged for the extracted schemas by `Props.C18.generated_schemas_wf`), every JSON value, any
+nesting depth.
 What this is and is not: it is idempotence of `project` on JSON — what was written is read back and
 written again unchanged. The typed Rust value is not an object of the model, so information a type
 might hold without writing it (a non-injective `Serialize`) is invisible to this theorem; on the
@@ -41,7 +53,8 @@ theorem ser_deser_idempotent (s : Schema) (hs : WF s) (j : JVal) :
 /-! ## Valid JSON without duplicate keys -/
 
 /-- **Every object of the output, at every depth, has pairwise distinct keys** — whatever the input
-was (duplicate keys in the input either fail the content or are resolved). -/
+was (duplicate keys in the input either fail the content or are resolved). For every well-formed
+schema (`WF s`). -/
 theorem ser_no_duplicate_keys (s : Schema) (hs : WF s) (j t : JVal) (h : project s j = some t) :
     NoDupKeys t :=
   project_noDup s hs j t h
@@ -74,13 +87,35 @@ theorem present_values_preserved_partial (fields : List Field) (keep : Bool) (o 
       (f.skip nv = true → ∀ e ∈ o', e.1 ≠ f.name) :=
   obj_preserves hd h hf hg hl hna hp
 
-/-- A scalar type that writes back what it read (`Verbatim`: `String`, identifiers, string enums,
-`Int`, `UInt`, `bool`) leaves the value as it was. Not `Verbatim`, each for a stated reason:
-`Base64` (re-encodes without padding), `f64` (an integer is written as a float), the lenient
-power-level reader (a decimal string is written as the number) — witnesses below. -/
+/-- A scalar type that writes back what it read (`Verbatim`) leaves the value as it was. This only
+spells out the definition of `Verbatim`; WHICH scalar types of the modelled content types are
+`Verbatim` is `leaves_verbatim` below. -/
 theorem present_leaf_verbatim (norm : JVal → Option JVal) (hv : Verbatim norm) (v nv : JVal)
     (h : project (.scalar norm) v = some nv) : nv = v :=
   scalar_verbatim hv h
+
+/-- **Every scalar type that occurs in a modelled content type** (`Leaf`: `String`, `Int`, `UInt`,
+`bool`, `VoipVersionId`, the identifier types, string enums and constants) **except `Base64`
+(re-encodes without padding), `f64` (an integer is written as a float) and the lenient power-level
+reader (a decimal string is written as the number) writes back exactly the scalar it read.** -/
+theorem leaves_verbatim (l : Leaf) (h1 : l ≠ .base64) (h2 : l ≠ .float) (h3 : l ≠ .intLax) (v nv : JVal)
+    (h : project l.schema v = some nv) : nv = v := by
+  obtain ⟨norm, hs, hv⟩ := leaf_verbatim l h1 h2 h3
+  rw [hs] at h
+  exact scalar_verbatim hv h
+
+/-- **Every scalar type that occurs meets the scalar clauses of `WF`**: what it writes back it reads
+back unchanged, and it writes `null` only for `null` — `Base64` (decode, clear trailing bits, re-encode
+unpadded) included, without a shape hypothesis; stated for the names the harness uses (`leafOf`). -/
+theorem leaves_well_formed (n : String) (s : Schema) (h : leafOf n = some s) :
+    WF s ∧ ∃ norm, s = .scalar norm ∧ (∀ a b, norm a = some b → norm b = some b) ∧
+      (∀ a, norm a = some .null → a = .null) :=
+  leafOf_wf n s h
+
+/-- **The total check `wfb` decides the side condition**: a description on which it evaluates to
+`true` denotes a well-formed schema (all clauses of `WF`, `TagFixed` included). -/
+theorem wfb_decides_wf (d : Desc) (h : wfb d = true) : WF d.toSchema :=
+  wfb_sound d h
 
 theorem str_verbatim_of (norm : Str → Option Str) (h : ∀ a b, norm a = some b → b = a) (v nv : JVal)
     (hp : project (Schema.str norm) v = some nv) : nv = v := by
@@ -108,8 +143,10 @@ theorem bool_verbatim (v nv : JVal) (hp : project Schema.bool v = some nv) : nv 
 /-! ## Key order -/
 
 /-- **The result does not depend on the input's key order**: reordering the entries of any objects
-of the input, at any depth (`Shuffled`, the relation of C01; a reordered object has distinct keys),
-changes neither acceptance nor the output. No hypothesis on the schema. -/
+of the input, at any depth, changes neither acceptance nor the output — FOR INPUTS WHOSE REORDERED
+OBJECTS HAVE DISTINCT KEYS (`Shuffled`, the relation of C01, carries `(Obj.keys kvs).Nodup` for every
+object it reorders: with a duplicated key the order decides which duplicate is reported or kept).
+No hypothesis on the schema. -/
 theorem key_order_independent (s : Schema) (j j' : JVal) (h : Shuffled j j') :
     project s j = project s j' :=
   shuffled_project s j j' h
@@ -133,8 +170,10 @@ theorem unknown_fields_never_fail_catch_all (fields : List Field) (keep : Bool) 
     (project (.obj fields keep) (.obj o)).isSome = (project (.obj fields keep) (.obj o')).isSome :=
   obj_accepts_known_only h
 
-/-- **A struct with a catch-all keeps an unknown key verbatim**: a key no field claims, given once, is
-in the output with the `serde_json::Value` of what was given (objects inside it as maps). -/
+/-- **A struct with a catch-all keeps an unknown key as its `serde_json::Value`**: a key no field
+claims, given once, is in the output with `serdeValue v` — the value given, with the entries of every
+object inside it sorted by key and deduplicated (last wins), as `serde_json::Map` (a `BTreeMap`)
+holds them; equal to `v` itself exactly when `v` is already in that form. -/
 theorem catch_all_keeps_unknown (fields : List Field) (o : Obj) (t : JVal) (k : Str) (v : JVal)
     (h : project (.obj fields true) (.obj o) = some t) (hk : known fields k = false)
     (hone : o.filter (fun e => e.1 == k) = [(k, v)]) :
@@ -357,6 +396,28 @@ example : Ext member
     (.obj [(bs "membership", .str (bs "join")), (bs "reason", .str (bs "r"))])
     (.obj [(bs "zz", .int 1), (bs "membership", .str (bs "join")), (bs "zz", .null), (bs "reason", .str (bs "r"))]) :=
   .obj (.cons (fun _ _ _ => .refl _ _) (.cons (fun _ _ _ => .refl _ _) (.nil _))) (fun h => by cases h)
+
+/-- `wfb` is not vacuous: it accepts a realistic struct and rejects each kind of ill-formed one —
+a required field with a skip predicate (the counterexample to the fixpoint), two fields with one
+spelling, a default the field cannot read, a tagged case that does not write its tag, a
+serialise-only constant next to a catch-all. -/
+example : wfb (.obj [.mk (bs "a") [] (.leaf .str) true none false false [] false,
+    .mk (bs "b") [bs "bb"] (.leaf .uint) false (some (.int 0)) false false [] false] false) = true := by decide
+example : wfb (.obj [.mk (bs "a") [] (.leaf .str) true none false false [.str (bs "x")] false] false) = false := by decide
+example : wfb (.obj [.mk (bs "a") [] (.leaf .str) true none false false [] false,
+    .mk (bs "b") [bs "a"] (.leaf .str) true none false false [] false] false) = false := by decide
+example : wfb (.obj [.mk (bs "b") [] (.leaf .uint) false (some (.int (-1))) false false [] false] false) = false := by decide
+example : wfb (.tagged (bs "t") [.mk (bs "x") (.obj [.mk (bs "t") [] (.leaf (.const (bs "x"))) true none false false [] false] false)]) = true := by decide
+example : wfb (.tagged (bs "t") [.mk (bs "x") (.obj [.mk (bs "t") [] (.leaf .str) true none false false [] false] false)]) = false := by decide
+example : wfb (.obj [.mk (bs "rel_type") [] (.leaf .str) false (some (.str (bs "m.x"))) true true [] true] true) = false := by decide
+/-- The model is tidier than serde on that last combination, which is why `WF` excludes it: the model
+drops the input's `rel_type`, serde would also collect it into the flatten map and write the key twice. -/
+example : project (Desc.toSchema (.obj [.mk (bs "rel_type") [] (.leaf .str) false (some (.str (bs "m.x"))) true true [] true] true))
+    (.obj [(bs "rel_type", .str (bs "zzz")), (bs "u", .int 1)])
+    = some (.obj [(bs "rel_type", .str (bs "m.x")), (bs "u", .int 1)]) := by rfl
+/-- `Base64`: padding and trailing bits are dropped, and the result is read back unchanged. -/
+example : base64Norm (bs "YWJ=") = some (bs "YWI") := by decide
+example : base64Norm (bs "YWI") = some (bs "YWI") := by decide
 
 end Examples
 
